@@ -529,3 +529,17 @@ def protocol_canon_case(case, raw):
         if not out or out[-1] != dump:
             out.append(dump)
     return " | ".join(out)
+
+
+def measure(case, raw):
+    """crash points actually reopened (ranges in the answer are sampled points merged when they answered alike), how many of
+    them lie in a recorded window, nested recoveries flagged, acknowledged actions"""
+    p = parse_records(raw)
+    if p is None:
+        return {"unreadable_cases": 1}
+    answers, recs = p
+    return {"actions": len(answers), "distinct_crash_situations": len(recs),
+            "crash_points_spanned": sum(k2 - k1 + 1 for (k1, k2, j, f, w, d, fl) in recs),
+            "situations_in_window": sum(1 for r in recs if r[4]),
+            "situations_not_opening": sum(1 for r in recs if r[5].startswith("openerr") or "#openerr" in r[5]),
+            "file_mutation_events": recs[-1][1] if recs else 0}
